@@ -212,12 +212,53 @@ def c_in(a: str, bs: list[str], case_sensitive: bool):
     ensures(result == any(eqcs(a, b, case_sensitive) for b in bs))
 
 
+def cmatch_upto(x, r, cs, n):
+    """CURIE-side match of x against r using x.prefix and the first n synonyms of x."""
+    return (eqcs(x.prefix, r.prefix, cs) or any(eqcs(x.prefix, b, cs) for b in r.prefix_synonyms)
+            or any(eqcs(s, r.prefix, cs) or any(eqcs(s, b, cs) for b in r.prefix_synonyms) for s in x.prefix_synonyms[:n]))
+
+
+def umatch_upto(x, r, cs, n):
+    return (eqcs(x.uri_prefix, r.uri_prefix, cs) or any(eqcs(x.uri_prefix, b, cs) for b in r.uri_prefix_synonyms)
+            or any(eqcs(s, r.uri_prefix, cs) or any(eqcs(s, b, cs) for b in r.uri_prefix_synonyms) for s in x.uri_prefix_synonyms[:n]))
+
+
+def matches2(x, r, cs):
+    """matches(), phrased like the scan in _match_record (same meaning as `matches`)."""
+    return cmatch_upto(x, r, cs, len(x.prefix_synonyms)) or umatch_upto(x, r, cs, len(x.uri_prefix_synonyms))
+
+
 @contract("api.Converter._match_record", props=["C05", "C09"], returns="dict[RecordKey,list[str]]")
 def c_match_record(self: Converter, external: Record, case_sensitive: bool):
-    requires(WF(self))
     pure()
-    ensures(all(any(r._key == k and matches(external, r, case_sensitive) for r in self.records) for k in result))
-    ensures(all(r._key in result for r in self.records if matches(external, r, case_sensitive)))
+    ensures(all(any(r._key == k and matches2(external, r, case_sensitive) for r in self.records) for k in result))
+    ensures(all(r._key in result for r in self.records if matches2(external, r, case_sensitive)))
+    ensures(all(any(r._key == k and matches(external, r, case_sensitive) for r in self.records) for k in result), native=True)
+    ensures(all(r._key in result for r in self.records if matches(external, r, case_sensitive)), native=True)
+
+
+@invariant("api.Converter._match_record", loop=0)
+def inv_match0(self, external, case_sensitive, rv, _i, _xs):
+    return (all(any(r._key == k and matches2(external, r, case_sensitive) for r in _xs[:_i]) for k in rv)
+            and all(r._key in rv for r in _xs[:_i] if matches2(external, r, case_sensitive)))
+
+
+@invariant("api.Converter._match_record", loop=1)
+def inv_match1(self, external, case_sensitive, rv, record, _i, _xs, _outer_i, _outer_xs):
+    return (all(any(r._key == k and matches2(external, r, case_sensitive) for r in _outer_xs[:_outer_i])
+                or (k == record._key and cmatch_upto(external, record, case_sensitive, _i)) for k in rv)
+            and all(r._key in rv for r in _outer_xs[:_outer_i] if matches2(external, r, case_sensitive))
+            and (not cmatch_upto(external, record, case_sensitive, _i) or record._key in rv))
+
+
+@invariant("api.Converter._match_record", loop=2)
+def inv_match2(self, external, case_sensitive, rv, record, _i, _xs, _outer_i, _outer_xs):
+    return (all(any(r._key == k and matches2(external, r, case_sensitive) for r in _outer_xs[:_outer_i])
+                or (k == record._key and (cmatch_upto(external, record, case_sensitive, len(external.prefix_synonyms))
+                                          or umatch_upto(external, record, case_sensitive, _i))) for k in rv)
+            and all(r._key in rv for r in _outer_xs[:_outer_i] if matches2(external, r, case_sensitive))
+            and (not (cmatch_upto(external, record, case_sensitive, len(external.prefix_synonyms))
+                      or umatch_upto(external, record, case_sensitive, _i)) or record._key in rv))
 
 
 @contract("api.Converter._merge", props=["C05", "C09"], returns="None")
@@ -225,49 +266,119 @@ def c_merge(record: Record, into: Record):
     requires(RecInv(into) and record is not into)
     modifies(into.prefix_synonyms, into.uri_prefix_synonyms)
     ensures(into.prefix == old(into.prefix) and into.uri_prefix == old(into.uri_prefix) and into.pattern == old(into.pattern))
-    ensures(P(into) == old(P(into) | P(record)) and U(into) == old(U(into) | U(record)))
+    ensures(P(into) <= old(P(into) | P(record)))
+    ensures(old(P(into)) <= P(into))
+    ensures(old(P(record)) <= P(into))
+    ensures(U(into) <= old(U(into) | U(record)))
+    ensures(old(U(into)) <= U(into))
+    ensures(old(U(record)) <= U(into))
     ensures(RecInv(into))
-    ensures(rec_state(record) == old(rec_state(record)))
+    ensures(rec_state(record) == old(rec_state(record)), native=True)
+
+
+@invariant("api.Converter._merge", loop=0)
+def inv_merge0(record, into, _i, _xs, _pre):
+    return (all(p in P(into) for p in _xs[:_i]) and all(p in _pre(P(into)) or p in _xs[:_i] for p in P(into))
+            and all(p in P(into) for p in _pre(P(into))) and into.prefix not in into.prefix_synonyms)
+
+
+@invariant("api.Converter._merge", loop=1)
+def inv_merge1(record, into, _i, _xs, _pre):
+    return (all(u in U(into) for u in _xs[:_i]) and all(u in _pre(U(into)) or u in _xs[:_i] for u in U(into))
+            and all(u in U(into) for u in _pre(U(into))) and into.uri_prefix not in into.uri_prefix_synonyms)
 
 
 @contract("api.Converter._index", props=["C05", "C01"], returns="None")
 def c_index(self: Converter, record: Record):
-    requires(any(r is record for r in self.records))
     modifies(self.prefix_map, self.synonym_to_prefix, self.reverse_prefix_map, self.trie, self.pattern_map)
+    # every name of the record is indexed under the record's canonical values
     ensures(all(p in self.prefix_map and self.prefix_map[p] == record.uri_prefix
                 and p in self.synonym_to_prefix and self.synonym_to_prefix[p] == record.prefix for p in P(record)))
     ensures(all(u in self.reverse_prefix_map and self.reverse_prefix_map[u] == record.prefix
                 and u in self.trie and self.trie[u] == record.prefix for u in U(record)))
-    ensures(all((p in P(record)) or (p in old(dict(self.prefix_map)) and old(dict(self.prefix_map))[p] == self.prefix_map[p])
-                for p in self.prefix_map))
-    ensures(all(p in self.prefix_map for p in old(dict(self.prefix_map))))
-    ensures(all((u in U(record)) or (u in old(dict(self.reverse_prefix_map)) and old(dict(self.reverse_prefix_map))[u] == self.reverse_prefix_map[u])
-                for u in self.reverse_prefix_map))
-    ensures(dict(self.trie.items()) == dict(self.reverse_prefix_map) or old(dict(self.trie.items())) != old(dict(self.reverse_prefix_map)))
-    ensures([rec_state(r) for r in self.records] == old([rec_state(r) for r in self.records]))
+    # all other entries are exactly the old ones
+    ensures(all(p in P(record) or (p in old(self.prefix_map) and old(self.prefix_map)[p] == self.prefix_map[p]) for p in self.prefix_map))
+    ensures(all(p in self.prefix_map for p in old(self.prefix_map)))
+    ensures(all(p in P(record) or (p in old(self.synonym_to_prefix) and old(self.synonym_to_prefix)[p] == self.synonym_to_prefix[p]) for p in self.synonym_to_prefix))
+    ensures(all(p in self.synonym_to_prefix for p in old(self.synonym_to_prefix)))
+    ensures(all(u in U(record) or (u in old(self.reverse_prefix_map) and old(self.reverse_prefix_map)[u] == self.reverse_prefix_map[u]) for u in self.reverse_prefix_map))
+    ensures(all(u in self.reverse_prefix_map for u in old(self.reverse_prefix_map)))
+    ensures(all(u in U(record) or (u in old(self.trie) and old(self.trie)[u] == self.trie[u]) for u in self.trie))
+    ensures(all(u in self.trie for u in old(self.trie)))
+    # pattern map: old entries kept, a new entry only for this record's canonical prefix
+    ensures(all(k in self.pattern_map and self.pattern_map[k] == old(self.pattern_map)[k] for k in old(self.pattern_map)))
+    ensures(all(k in old(self.pattern_map) or (k == record.prefix and self.pattern_map[k] == record.pattern) for k in self.pattern_map))
+    ensures(implies(bool(record.pattern), record.prefix in self.pattern_map))
+    ensures(implies(not record.pattern, all(k in old(self.pattern_map) for k in self.pattern_map)))
+
+
+@invariant("api.Converter._index", loop=0)
+def inv_index0(self, record, _i, _xs, _pre):
+    return (all(p in self.prefix_map and self.prefix_map[p] == record.uri_prefix
+                and p in self.synonym_to_prefix and self.synonym_to_prefix[p] == record.prefix for p in _xs[:_i])
+            and record.prefix in self.prefix_map and self.prefix_map[record.prefix] == record.uri_prefix
+            and record.prefix in self.synonym_to_prefix and self.synonym_to_prefix[record.prefix] == record.prefix
+            and all(p in P(record) or (p in _pre(self.prefix_map) and _pre(self.prefix_map)[p] == self.prefix_map[p]) for p in self.prefix_map)
+            and all(p in self.prefix_map for p in _pre(self.prefix_map))
+            and all(p in P(record) or (p in _pre(self.synonym_to_prefix) and _pre(self.synonym_to_prefix)[p] == self.synonym_to_prefix[p]) for p in self.synonym_to_prefix)
+            and all(p in self.synonym_to_prefix for p in _pre(self.synonym_to_prefix)))
+
+
+@invariant("api.Converter._index", loop=1)
+def inv_index1(self, record, _i, _xs, _pre):
+    return (all(u in self.reverse_prefix_map and self.reverse_prefix_map[u] == record.prefix
+                and u in self.trie and self.trie[u] == record.prefix for u in _xs[:_i])
+            and record.uri_prefix in self.reverse_prefix_map and self.reverse_prefix_map[record.uri_prefix] == record.prefix
+            and record.uri_prefix in self.trie and self.trie[record.uri_prefix] == record.prefix
+            and all(u in U(record) or (u in _pre(self.reverse_prefix_map) and _pre(self.reverse_prefix_map)[u] == self.reverse_prefix_map[u]) for u in self.reverse_prefix_map)
+            and all(u in self.reverse_prefix_map for u in _pre(self.reverse_prefix_map))
+            and all(u in U(record) or (u in _pre(self.trie) and _pre(self.trie)[u] == self.trie[u]) for u in self.trie)
+            and all(u in self.trie for u in _pre(self.trie)))
 
 
 @contract("api.Converter.add_record", props=["C05", "C09", "C01"], returns="None")
 def c_add_record(self: Converter, record: Record, case_sensitive: bool, merge: bool):
     requires(WF(self) and RecInv(record) and all(r is not record for r in self.records))
-    M = [r for r in self.records if matches(record, r, case_sensitive)]
-    m = M[0] if len(M) == 1 else None
-    m_old = rec_state(m) if m is not None else None
+    none = not any(matches2(record, r, case_sensitive) for r in self.records)
+    several = any(matches2(record, a, case_sensitive) and matches2(record, b, case_sensitive)
+                  for i, a in enumerate(self.records) for j, b in enumerate(self.records) if i != j)
+    m = next((r for r in self.records if matches2(record, r, case_sensitive)), None)
+    recs0 = list(self.records)
+    m_prefix = m.prefix if m is not None else None
+    m_uri = m.uri_prefix if m is not None else None
+    m_pattern = m.pattern if m is not None else None
     m_P = (P(m) | P(record)) if m is not None else None
     m_U = (U(m) | U(record)) if m is not None else None
-    raises(ValueError, when=len(M) > 1 or (len(M) == 1 and not merge), unchanged=True)
-    modifies(self)
+    raises(ValueError, when=several or (not none and not merge), unchanged=True)
+    modifies(self, *self.records)
     ensures(WF(self))
-    ensures(fresh_equiv(self))
-    ensures(implies(len(M) == 0, len(self.records) == old(len(self.records)) + 1 and self.records[-1] is record
-                    and [rec_state(r) for r in self.records] == old([rec_state(r) for r in self.records] + [rec_state(record)])))
-    ensures(implies(len(M) == 1, len(self.records) == old(len(self.records))
-                    and m.prefix == m_old[0] and m.uri_prefix == m_old[1] and m.pattern == m_old[4]
-                    and P(m) == m_P and U(m) == m_U
-                    and all(rec_state(r) == s for r, s in zip(self.records, old([rec_state(r) for r in self.records])) if r is not m)))
-    ensures(all(known(self, p) for p in P(record)) and all(uknown(self, u) for u in U(record)))
-    ensures(rec_state(record) == old(rec_state(record)))
     ensures(self.delimiter == old(self.delimiter))
+    # no match: the record is appended, nothing else changes
+    ensures(implies(none, len(self.records) == len(recs0) + 1 and self.records[-1] is record
+                    and all(self.records[i] is recs0[i] for i in range(len(recs0)))))
+    ensures(all(self.records[i] is m or rec_state(self.records[i]) == old([rec_state(r) for r in self.records])[i]
+                for i in range(old(len(self.records)))), native=True)
+    # one match: merged into it; it keeps its canonical prefix, URI prefix and pattern, gains the new names as synonyms
+    ensures(implies(not none, len(self.records) == len(recs0)
+                    and all(self.records[i] is recs0[i] for i in range(len(self.records)))
+                    and m.prefix == m_prefix and m.uri_prefix == m_uri and m.pattern == m_pattern
+                    and P(m) == m_P and U(m) == m_U))
+    ensures(all(self.records[i] is m or (self.records[i].prefix == old([r.prefix for r in self.records])[i]
+                                         and self.records[i].uri_prefix == old([r.uri_prefix for r in self.records])[i]
+                                         and self.records[i].pattern == old([r.pattern for r in self.records])[i]
+                                         and P(self.records[i]) == old([P(r) for r in self.records])[i]
+                                         and U(self.records[i]) == old([U(r) for r in self.records])[i])
+                for i in range(old(len(self.records)))))
+    ensures(all(known(self, p) for p in P(record)) and all(uknown(self, u) for u in U(record)))
+    ensures(record.prefix == old(record.prefix) and record.uri_prefix == old(record.uri_prefix))
+    ensures(fresh_equiv(self), native=True)
+    ensures(rec_state(record) == old(rec_state(record)), native=True)
+
+
+@lemma("C05.matches_phrasing", props=["C05"])
+def l_c05_matches(x: Record, r: Record, cs: bool):
+    """The scan order used by _match_record decides the same relation as the set-level definition."""
+    assert matches(x, r, cs) == matches2(x, r, cs)
 
 
 @contract("api.Converter.add_prefix", props=["C05"], returns="None")
